@@ -1,3 +1,6 @@
+mod cgrdec;
+mod facts;
+mod files;
 mod gen;
 mod tables;
 mod traces;
@@ -20,6 +23,17 @@ fn main() {
         ["trace", "kmer", ..] => traces::kmer(arg(&a, 2), arg(&a, 3), arg(&a, 4)),
         ["trace", "minimiser", ..] => traces::minimiser(arg(&a, 2), arg(&a, 3), arg(&a, 4), false),
         ["trace", "kmermin", ..] => traces::minimiser(arg(&a, 2), arg(&a, 3), arg(&a, 4), true),
+        ["table", "oligo", ..] => tables::oligo(arg(&a, 2), arg(&a, 3), arg(&a, 4), &a[5], &a[6]),
+        ["table", "cgr", ..] => tables::cgr(arg(&a, 2), arg(&a, 3), arg(&a, 4)),
+        ["trace", "oligo", ..] => facts::oligo(arg(&a, 2), arg(&a, 3), arg(&a, 4), &a[5]),
+        ["trace", "cgr", ..] => facts::cgr(arg(&a, 2), arg(&a, 3), arg(&a, 4)),
+        ["trace", "cgrfile", ..] => facts::cgr_file(arg(&a, 2), arg(&a, 3), arg(&a, 4), &a[5]),
+        ["trace", "ocgr", ..] => facts::ocgr(arg(&a, 2), arg(&a, 3), arg(&a, 4), &a[5]),
+        ["decode", "oligo", ..] => facts::decode_oligo(&a[2], &a[3], arg(&a, 4), a[5] == "1", &a[6], a[7] == "1", &a[8]),
+        ["decode", "cgr", ..] => facts::decode_cgr(&a[2], &a[3], arg(&a, 4), &a[5]),
+        ["decode", "ocgr", ..] => facts::decode_ocgr(&a[2], &a[3], arg(&a, 4), arg(&a, 5), a[6] == "1", &a[7]),
+        ["gen", "fasta", ..] => facts::gen_fasta(arg(&a, 2), arg(&a, 3), arg(&a, 4), &a[5], a.get(6).map(|x| x == "clean").unwrap_or(false)),
+        ["table", "ocgr", ..] => tables::ocgr(arg(&a, 2), arg(&a, 3), arg(&a, 4), &a[5], &a[6]),
         ["table", "revcomp", ..] => tables::revcomp(arg(&a, 2)),
         ["table", "posmap", ..] => tables::posmap(arg(&a, 2)),
         ["trace", "rc", ..] => traces::rc(arg(&a, 2), arg(&a, 3)),
